@@ -1,9 +1,11 @@
 package main
 
 import (
+	"context"
 	"fmt"
 	"math"
 	"strings"
+	"time"
 
 	"github.com/zeromicro/go-zero/core/limit"
 	"github.com/zeromicro/go-zero/verifshim/vsched"
@@ -25,6 +27,7 @@ type TOp struct {
 	I     int    `json:"i,omitempty"`     // allow: instance 1|2
 	N     int    `json:"n,omitempty"`     // allow: tokens requested
 	Ms    int64  `json:"ms,omitempty"`    // adv
+	Dead  string `json:"dead,omitempty"`  // allow: "" | "deadline" | "canceled" — AllowNCtx under a context that has already ended
 	On    bool   `json:"on,omitempty"`    // outage
 	Hard  bool   `json:"hard,omitempty"`  // outage: close / restart the server instead of SetError
 }
@@ -34,6 +37,9 @@ func (o TOp) String() string {
 	case "cfg":
 		return fmt.Sprintf("TokenLimiter(rate=%d,burst=%d)x2", o.Rate, o.Burst)
 	case "allow":
+		if o.Dead != "" {
+			return fmt.Sprintf("AllowNCtx#%d(ctx %s,now,%d)", o.I, o.Dead, o.N)
+		}
 		return fmt.Sprintf("AllowN#%d(now,%d)", o.I, o.N)
 	case "adv":
 		if o.Ms == 100 {
@@ -133,11 +139,34 @@ func newTokenWorld(rate, burst int) *tokenWorld {
 //   - otherwise (store down, or instance still in rescue mode): the in-process limiter answered;
 //     only the local bound is demanded.
 func (w *tokenWorld) judgeAllow(inst, n int, nowMs int64, before, after instState, got bool) (class, msg string) {
+	return w.judgeAllowCtx(inst, n, nowMs, before, after, got, "")
+}
+
+// judgeAllowCtx: dead != "" means the call was made under a context that had already ended. The
+// statement leaves its answer open only this far: it may be refused without touching the bucket
+// (the request never reached the store), or answered by the shared bucket like any other call;
+// in no case may it move a store-mode instance to its private limiter while the store is reachable.
+func (w *tokenWorld) judgeAllowCtx(inst, n int, nowMs int64, before, after instState, got bool, dead string) (class, msg string) {
 	sec := vsched.Epoch.Unix() + nowMs/1000
 	if before.alive && !w.down {
 		w.shared.refill(sec)
 		had := w.shared.tokens
+		if dead != "" && !got {
+			if !after.alive {
+				return "token:fell-to-rescue-while-reachable:ended-context", fmt.Sprintf("store reachable, instance #%d in store mode: a call under a context that had ended (%s) switched it to its in-process limiter — its next grants are no longer taken from the shared bucket (which holds %d)", inst, dead, had)
+			}
+			return "", ""
+		}
 		want := w.shared.take(sec, n)
+		if !after.alive && got == want {
+			cls := "token:fell-to-rescue-while-reachable"
+			if 2*w.burst < w.rate {
+				cls = "token-ttl-zero-falls-to-rescue"
+			} else if dead != "" {
+				cls += ":ended-context"
+			}
+			return cls, fmt.Sprintf("store reachable, instance #%d in store mode, yet the call left it answering from its in-process limiter (AllowN#%d(n=%d) = %v happens to agree with the shared bucket holding %d, the following grants will not)", inst, inst, n, got, had)
+		}
 		if !after.alive {
 			// answered by the in-process limiter although the store was reachable
 			if got {
@@ -247,7 +276,18 @@ func runTokenOnce(path []TOp, verbose bool) runResult {
 				}
 				before := state(o.I)
 				var got bool
-				e.counted(func() { got = lims[o.I].AllowN(now, o.N) })
+				switch o.Dead {
+				case "":
+					e.counted(func() { got = lims[o.I].AllowN(now, o.N) })
+				case "canceled":
+					ctx, cancel := context.WithCancel(context.Background())
+					cancel()
+					e.counted(func() { got = lims[o.I].AllowNCtx(ctx, now, o.N) })
+				default:
+					ctx, cancel := context.WithDeadline(context.Background(), time.Unix(1, 0))
+					e.counted(func() { got = lims[o.I].AllowNCtx(ctx, now, o.N) })
+					cancel()
+				}
 				vsched.Quiesce()
 				after := state(o.I)
 				if verbose {
@@ -256,7 +296,7 @@ func runTokenOnce(path []TOp, verbose bool) runResult {
 				if o.N > cfg.Burst || !got {
 					res.nontrivial = true
 				}
-				if class, msg := w.judgeAllow(o.I, o.N, nowMs, before, after, got); class != "" {
+				if class, msg := w.judgeAllowCtx(o.I, o.N, nowMs, before, after, got, o.Dead); class != "" {
 					fail(i, class, msg)
 					return
 				}
@@ -317,7 +357,8 @@ func runTokenOnce(path []TOp, verbose bool) runResult {
 
 func tokenConfigs() []TOp {
 	var out []TOp
-	for _, c := range [][2]int{{1, 1}, {2, 4}, {5, 10}, {5, 1}, {10, 3}} {
+	// (2,3): burst/rate is not a whole number of seconds (the keys' TTL and the refill disagree on rounding)
+	for _, c := range [][2]int{{1, 1}, {2, 4}, {5, 10}, {5, 1}, {10, 3}, {2, 3}} {
 		out = append(out, TOp{K: "cfg", Rate: c[0], Burst: c[1]})
 	}
 	return out
@@ -345,6 +386,8 @@ func tokenAlphabet(path []TOp) []TOp {
 			ops = append(ops, TOp{K: "allow", I: i, N: n})
 		}
 	}
+	// calls under a context that has already ended (deadline passed / cancelled)
+	ops = append(ops, TOp{K: "allow", I: 1, N: 1, Dead: "deadline"}, TOp{K: "allow", I: 2, N: 1, Dead: "canceled"})
 	fill := int64(2*cfg.Burst*1000/cfg.Rate) + 1000
 	seenMs := map[int64]bool{}
 	for _, ms := range []int64{100, 500, 1000, 2000, fill} {
